@@ -63,6 +63,35 @@ fn bin<M: Serialize>(m: &M) -> cosmwasm_std::Binary {
 }
 
 /// a payload for (contract, variant) that is valid in the prepared world
+/// Second payload shape of the configuration updates: nothing but a new owner, and the caller names itself (for the
+/// authorised caller that is a transfer to itself).  The first shape changes a setting and leaves the owner alone;
+/// a sender check that only guards one of the two branches shows with the other.
+fn payload_owner_grab(f: &Full, c: &str, v: &str, sender: &Addr) -> Option<cosmwasm_std::Binary> {
+    use white_whale_std::pool_network::factory::ExecuteMsg as PF;
+    use white_whale_std::vault_network::vault_factory::ExecuteMsg as VF;
+    let me = Some(sender.to_string());
+    let vparams = white_whale_std::vault_network::vault::UpdateConfigParams {
+        flash_loan_enabled: None, deposit_enabled: None, withdraw_enabled: None, new_owner: me.clone(), new_vault_fees: None, new_fee_collector_addr: None };
+    Some(match (c, v) {
+        ("pair", "update_config") => bin(&white_whale_std::pool_network::pair::ExecuteMsg::UpdateConfig { owner: me, fee_collector_addr: None, pool_fees: None, feature_toggle: None }),
+        ("trio", "update_config") => bin(&white_whale_std::pool_network::trio::ExecuteMsg::UpdateConfig { owner: me, fee_collector_addr: None, pool_fees: None, feature_toggle: None, amp_factor: None }),
+        ("vault", "update_config") => bin(&white_whale_std::vault_network::vault::ExecuteMsg::UpdateConfig(vparams)),
+        ("pool_factory", "update_config") => bin(&PF::UpdateConfig { owner: me, fee_collector_addr: None, token_code_id: None, pair_code_id: None, trio_code_id: None }),
+        ("vault_factory", "update_config") => bin(&VF::UpdateConfig { owner: me, fee_collector_addr: None, vault_id: None, token_id: None }),
+        ("vault_router", "update_config") => bin(&white_whale_std::vault_network::vault_router::ExecuteMsg::UpdateConfig { owner: me, vault_factory_addr: None }),
+        ("frontend_helper", "update_config") => bin(&white_whale_std::pool_network::frontend_helper::ExecuteMsg::UpdateConfig { incentive_factory_addr: None, owner: me }),
+        ("fee_collector", "update_config") => bin(&white_whale_std::fee_collector::ExecuteMsg::UpdateConfig { owner: me, pool_router: None, fee_distributor: None, pool_factory: None, vault_factory: None,
+            take_rate: None, take_rate_dao_address: None, is_take_rate_active: None }),
+        ("fee_distributor", "update_config") => bin(&white_whale_std::fee_distributor::ExecuteMsg::UpdateConfig { owner: me, bonding_contract_addr: None, fee_collector_addr: None, grace_period: None,
+            distribution_asset: None, epoch_config: None }),
+        ("whale_lair", "update_config") => bin(&white_whale_std::whale_lair::ExecuteMsg::UpdateConfig { owner: me, unbonding_period: None, growth_rate: None, fee_distributor_addr: None }),
+        ("incentive_factory", "update_config") => bin(&white_whale_std::pool_network::incentive_factory::ExecuteMsg::UpdateConfig { owner: me, fee_collector_addr: None, fee_distributor_addr: None, create_flow_fee: None,
+            max_concurrent_flows: None, incentive_code_id: None, max_flow_start_time_buffer: None, min_unbonding_duration: None, max_unbonding_duration: None }),
+        ("epoch_manager", "update_config") => bin(&white_whale_std::epoch_manager::epoch_manager::ExecuteMsg::UpdateConfig { owner: me, epoch_config: None }),
+        _ => return None,
+    })
+}
+
 fn payload(f: &Full, c: &str, v: &str, k: u128, sender: &Addr) -> cosmwasm_std::Binary {
     use white_whale_std::pool_network::factory::ExecuteMsg as PF;
     use white_whale_std::vault_network::vault_factory::ExecuteMsg as VF;
@@ -261,7 +290,9 @@ pub fn run_schedule(rec: &mut Rec, seed: u64, run: u64, line: &str) {
         let k: u128 = r.gen_range(0..1000);
         let target = addr_of(&f, &c);
         let sender = sender_of(&f, &c, role);
-        let msg = payload(&f, &c, variant, k, &sender);
+        let mut shapes: Vec<(u8, cosmwasm_std::Binary)> = vec![(0, payload(&f, &c, variant, k, &sender))];
+        if let Some(b) = payload_owner_grab(&f, &c, variant, &sender) { shapes.push((1, b)); }
+        for (shape, msg) in shapes {
         let dpre = f.w.digest();
         let rs = if role == "sibling" {
             // the adversary contract forwards the message: the callee sees a contract as sender
@@ -282,9 +313,10 @@ pub fn run_schedule(rec: &mut Rec, seed: u64, run: u64, line: &str) {
         };
         let dpost = f.w.digest();
         rec.emit(json!({"ev": "call", "run": run, "step": step, "actor": role,
-            "args": {"c": c, "v": variant, "role": role, "phase": phase},
+            "args": {"c": c, "v": variant, "role": role, "phase": phase, "shape": shape},
             "res": rs.tag(), "err": jerr(&rs.err()), "dpre": dpre, "dpost": dpost}));
         step += 1;
+        }
     }
 }
 
